@@ -6,7 +6,19 @@ Suite `py.*` (C12).  A line is
   `<op> <args…> => <python tokens> || <rust-core tokens> ## <facts>`
 (formats: harness/src/py.rs).  `python tokens` is what CPython got from the extension module,
 `rust-core tokens` what the harness got from the Rust core's public API with the equivalent context,
-`facts` what the real core answered for every abstract operation of `OH.Model.Py.Core`.
+`facts` what the real core answered for every abstract operation of `OH.Model.Py.Core`:
+`P:` parse, `C:` country, `X:` Coordinates::new, `AZ:` zone at the coordinates, `K:` the context built by the
+harness, `D:`/`ND:`/`DQ:` strings, `in0=`/`in1=` the inputs, `Tn:<zone>:<utc>:<naive>` (`tzNaive`),
+`Td:<zone>:<naive>:<utc|panic>` (`tzDatetime`), and ONE stream fact (`streamNaive`), the items of
+`iter_range_naive(from, to)` as far as the call pulls them:
+  `F <from> <to> <all|cut|panic:site> <n> <iv>*`  state / next / normalize — a lazily pulled prefix: after the
+      items the stream ends (`all`), was not pulled further (`cut`: the model answers `missing-fact` if it asks
+      for more, which shows as a `disagree`), or panics;
+  `L <from> <to> <all|cut|panic:site> <n> <iv>*`  intervals — the items that make up the first `cap` localized
+      ranges; `cut` = a further localized range exists (the model is run on the listed items as the whole stream
+      and the answer is reported as `cut`).
+The model replays the generic `iter_range` of the core on them (`OH.Model.Py.iterRange` / `firstOfRange`: filter
+with `naive(datetime(start)) < end`, merge, map) with the binding's own locale.
 
 Verdicts (first that applies):
   `fail <clause> [class=…] …`  a clause of C12 is false on the PYTHON output:
@@ -102,10 +114,10 @@ structure Facts where
   tn : List (String × Int × Int) := []
   /-- `none` = the core panicked -/
   td : List (String × Int × Option Int) := []
-  /-- `(from, to, result)`; result `none` = panic -/
-  first : Option (Int × Int × Option (Option Interval)) := none
-  /-- `(from, to, cut, items)`; items `none` = panic -/
-  list : Option (Int × Int × Bool × Option (List Interval)) := none
+  /-- `F`: `(from, to, ending, items)`; ending = `all` | `cut` | `panic:…` -/
+  first : Option (Int × Int × String × List Interval) := none
+  /-- `L`: `(from, to, ending, items)` -/
+  list : Option (Int × Int × String × List Interval) := none
   bad : Bool := false
 
 def pIv : P Interval
@@ -136,29 +148,18 @@ def afterEq (t : String) : String := "=".intercalate ((t.splitOn "=").drop 1)
 
 def parseFacts : List String → Facts → Facts
   | [], f => f
-  | "F" :: a :: b :: rest, f =>
-    match parseInstant a, parseInstant b with
-    | some a, some b =>
-      match rest with
-      | ["none"] => { f with first := some (a, b, some none) }
-      | "some" :: iv =>
-        match pIv iv with
-        | some (iv, []) => { f with first := some (a, b, some (some iv)) }
-        | _ => { f with bad := true }
-      | [p] => if p.startsWith "panic" then { f with first := some (a, b, none) } else { f with bad := true }
-      | _ => { f with bad := true }
-    | _, _ => { f with bad := true }
-  | "L" :: a :: b :: rest, f =>
-    match parseInstant a, parseInstant b with
-    | some a, some b =>
-      match rest with
-      | [p] => if p.startsWith "panic" then { f with list := some (a, b, false, none) } else { f with bad := true }
-      | c :: items =>
-        match pList pIv items with
-        | some (l, []) => { f with list := some (a, b, c == "cut", some l) }
-        | _ => { f with bad := true }
-      | _ => { f with bad := true }
-    | _, _ => { f with bad := true }
+  | "F" :: a :: b :: ending :: items, f =>
+    match parseInstant a, parseInstant b, pList pIv items with
+    | some a, some b, some (l, []) =>
+      if ending == "all" || ending == "cut" || ending.startsWith "panic" then { f with first := some (a, b, ending, l) }
+      else { f with bad := true }
+    | _, _, _ => { f with bad := true }
+  | "L" :: a :: b :: ending :: items, f =>
+    match parseInstant a, parseInstant b, pList pIv items with
+    | some a, some b, some (l, []) =>
+      if ending == "all" || ending == "cut" || ending.startsWith "panic" then { f with list := some (a, b, ending, l) }
+      else { f with bad := true }
+    | _, _, _ => { f with bad := true }
   | t :: rest, f =>
     let f :=
       if t.startsWith "P:" then { f with parse := afterColon t }
@@ -184,6 +185,16 @@ def parseFacts : List String → Facts → Facts
 /-- sentinel for a conversion the harness did not report (shows up in a `disagree`) -/
 def missing : Int := -999999999999999999999999
 
+/-- the stream a fact describes: its items, then the normal end (`all`), a panic (`panic:…`), or — for a
+prefix that was not pulled further (`cut`) — `missing-fact` (`lazy`), resp. the end (`L`: the listed items are
+the whole input of the model) -/
+def streamOf (lazy : Bool) (ending : String) : List Interval → NStream
+  | [] =>
+    if ending == "all" then .done
+    else if ending == "cut" then (if lazy then .panic "missing-fact" else .done)
+    else .panic "panic"
+  | iv :: rest => .cons iv (streamOf lazy ending rest)
+
 /-- the `Core` whose operations answer what the real core answered -/
 @[reducible] def coreOf (f : Facts) : Core where
   Expr := String
@@ -207,18 +218,13 @@ def missing : Int := -999999999999999999999999
     | some (_, _, some u) => .ok u
     | some (_, _, none) => .error "panic"
     | none => .error "missing-fact"
-  iterNaive := fun _ _ _ a b =>
-    match f.list with
-    | some (a', b', _, r) =>
-      if a == a' && b == b' then (match r with | some l => .ok l | none => .error "panic")
-      else .error "missing-fact"
-    | none => .error "missing-fact"
-  firstNaive := fun _ _ _ a b =>
-    match f.first with
-    | some (a', b', r) =>
-      if a == a' && b == b' then (match r with | some x => .ok x | none => .error "panic")
-      else .error "missing-fact"
-    | none => .error "missing-fact"
+  streamNaive := fun _ _ _ a b =>
+    match f.list, f.first with
+    | some (a', b', ending, l), _ =>
+      if a == a' && b == b' then streamOf false ending l else .panic "missing-fact"
+    | none, some (a', b', ending, l) =>
+      if a == a' && b == b' then streamOf true ending l else .panic "missing-fact"
+    | none, none => .panic "missing-fact"
 
 /-! ## printing model values -/
 
@@ -512,35 +518,56 @@ def modelEval (l : Line) (o : PyOH (coreOf l.f)) (i0 i1 : Option Inp) : Option (
         match o.intervals sv (e.bind Inp.val) with
         | .error p => some (errTok "iter" p)
         | .ok items =>
-          let cut := match f.list with | some (_, _, c, _) => c | none => false
+          let cut := match f.list with | some (_, _, c, _) => c == "cut" | none => false
           some (["R", if cut then "cut" else "all", toString items.length] ++
             items.flatMap (fun it =>
               [showDT f it.start, showOptDT f it.stop, kindTok it.kind, toString it.comments.length] ++ it.comments.map enc))
     | none, _ => none
   | _ => none
 
+/-- the wall-clock ranges behind the results, by the SPECIFICATION's description (`OH.Spec.Py.dropSkipped`
+for a context with a zone — spans the zone's clock skips are dropped —, every non-empty range otherwise;
+then same-kind neighbours merged): `none` when a conversion it needs panicked or was not reported -/
+def specNaiveRanges (f : Facts) (l : List Interval) : Option (List Interval) :=
+  match ctxZone f with
+  | some z =>
+    match OH.Spec.Py.dropSkipped (coreOf f) z l with
+    | .ok kept => some (Tz.mergeRanges kept)
+    | .error _ => none
+  | none => some (Tz.mergeRanges (l.filter (fun iv => decide (iv.start < iv.stop))))
+
 /-- spec clause "None ⇔ the core's naive result is DATE_END (or there is none)" for `next_change` -/
 def noneMappingNext (f : Facts) (py : List String) : Option String :=
   match f.first, py with
-  | some (_, _, some r), ["R", v] =>
-    let expectNone := match r with
-      | none => true
-      | some iv => decide (iv.stop ≥ instEnd)
-    if expectNone == (v == "none") then none else some s!"none-mapping py={v}"
+  | some (_, _, ending, l), ["R", v] =>
+    if ending.startsWith "panic" then none else
+    match specNaiveRanges f l with
+    | none => none
+    | some rs =>
+      -- a prefix that was cut before any range was kept says nothing
+      if rs.isEmpty && ending != "all" then none else
+      let expectNone := match rs with
+        | [] => true
+        | iv :: _ => decide (iv.stop ≥ instEnd)
+      if expectNone == (v == "none") then none else some s!"none-mapping py={v}"
   | _, _ => none
 
 /-- … and for the items of `intervals`: end `None` ⇔ the naive end is DATE_END -/
 def noneMappingItems (f : Facts) (py : List String) : Option String :=
   match f.list, py with
-  | some (_, _, _, some ivs), "R" :: _ :: n :: items =>
-    let rec go : List Interval → List String → Option String
-      | [], _ => none
-      | iv :: ivs, _ :: e :: _ :: k :: rest =>
-        let nc := k.toNat?.getD 0
-        if decide (iv.stop = instEnd) == (e == "none") then go ivs (rest.drop nc)
-        else some s!"none-mapping end={e} core-end={showInstant iv.stop}"
-      | _ :: _, _ => none
-    if n.toNat? == some ivs.length then go ivs items else none
+  | some (_, _, ending, l), "R" :: _ :: n :: items =>
+    if ending.startsWith "panic" then none else
+    match specNaiveRanges f l with
+    | none => none
+    | some ivs =>
+      let rec go : List Interval → List String → Option String
+        | [], _ => none
+        | iv :: ivs, _ :: e :: _ :: k :: rest =>
+          let nc := k.toNat?.getD 0
+          if decide (iv.stop = instEnd) == (e == "none") then go ivs (rest.drop nc)
+          else some s!"none-mapping end={e} core-end={showInstant iv.stop}"
+        | _ :: _, _ => none
+      if n.toNat? == some ivs.length then go ivs items else none
   | _, _ => none
 
 /-- for `now` ops the two sides read two different clocks: hide the start of the first item -/
